@@ -235,6 +235,11 @@ func TestWorker(t *testing.T) {
 			emit(map[string]any{"begin": seed})
 			plan := pd.gen(seed, thorough)
 			curPlan = plan
+			prePath := ""
+			if pd.crashy && rdir != "" {
+				prePath = fmt.Sprintf("%s/pre-%s-%d.json", rdir, pd.id, seed)
+				writeReplay(prePath, &ReplayFile{Property: pd.id, Seed: seed, Plan: plan, Tape: nil, Viol: &Violation{Oracle: "process-death", Fp: "process-death", Msg: "the worker process died while executing this run"}, Note: "tape is regenerated from the seed"})
+			}
 			// wall-clock watchdog (real time: this goroutine is outside the bubble)
 			wd := time.AfterFunc(60*time.Second, func() {
 				buf := make([]byte, 1<<20)
@@ -244,6 +249,9 @@ func TestWorker(t *testing.T) {
 			})
 			res := runProp(t, pd, plan, newTape(seed), false)
 			wd.Stop()
+			if prePath != "" {
+				os.Remove(prePath)
+			}
 			rec := RunRecord{Seed: seed, Class: plan.Class, End: res.Stats.EndReason, Steps: res.Stats.Steps, TaskSteps: res.Stats.TaskSteps,
 				SimTimeNs: int64(res.Stats.SimTime), Cmds: res.Stats.Cmds, Replies: res.Stats.Replies,
 				SchedFp: fmt.Sprintf("%016x", res.Stats.SchedFp), Faults: res.Stats.Faults, Probes: res.Stats.Probes, Extra: res.Extra}
@@ -283,7 +291,11 @@ func TestWorker(t *testing.T) {
 			}
 			os.Exit(0)
 		}
-		res := runProp(t, pd, rf.Plan, replayTape(rf.Tape), true)
+		tp := replayTape(rf.Tape)
+		if rf.Tape == nil && rf.Viol != nil && rf.Viol.Oracle == "process-death" {
+			tp = newTape(rf.Seed)
+		}
+		res := runProp(t, pd, rf.Plan, tp, true)
 		report(res)
 		if os.Getenv("VS_VERBOSE") != "" {
 			for _, l := range res.Log {
